@@ -9,7 +9,7 @@ import Glb.Generated.TrLogger
 import Glb.Tie.TrJson
 
 namespace Glb.Tie.TrLogger
-open Glb.Go Glb.Tie.TrJson
+open Glb.Go Glb.Tie.TrJson Glb.Tie.TrLevel
 
 /-- Go's truncating division: the model's `goDiv` is the translator's `idiv` (= `Int.tdiv`) -/
 theorem goDiv_eq_idiv (a : Int) : Glb.Aux.DateTime.goDiv a 100 = idiv a 100 := by
